@@ -67,6 +67,9 @@ theorem decSendCount_fr (c : C) : Fr c (decSendCount c) := by
   unfold decSendCount; exact Fr_ite ⟨rfl, rfl⟩ ⟨rfl, rfl⟩
 @[simp] theorem decSendCount_cfg (c : C) : (decSendCount c).cfg = c.cfg := (decSendCount_fr c).1
 @[simp] theorem decSendCount_mps (c : C) : (decSendCount c).s.mpsSend = c.s.mpsSend := (decSendCount_fr c).2
+theorem releasePacketId_fr (c : C) (id : Nat) : Fr c (releasePacketId c id) :=
+  releasePacketId_ind (Q := fun c' => Fr c c') c id (releaseIfUsed_fr c id) (fun h => h)
+    (fun h => h.trans (decSendCount_fr _))
 
 theorem pubRefuseCleanup_fr (c : C) (pid) : Fr c (pubRefuseCleanup c pid) := by
   unfold pubRefuseCleanup; split
